@@ -417,3 +417,67 @@ def rule_S1c(ctx):
                         "(and every other object restored from it)" % (f.name, unparse(top)),
                         line=u.lineno))
     return res
+
+
+# ====================================================================== G4
+def rule_G4(ctx):
+    """Work-list discipline (a contradiction rule): an element is tested for membership in the
+    visited list *before* it is appended to it.  `L.append(x)` directly followed by
+    `if x not in L:` in the same block is a test that can never succeed - whatever it guards
+    (enqueueing the element's successors) is dead, and the traversal silently stops at depth
+    one.  The rerun code relies on such a traversal to find every descendant of a task."""
+    res = RuleResult("G4", "no membership test on a list directly after the tested element was "
+                           "appended to it (the guarded work-list step would be dead code)")
+    prog = ctx.prog
+    n = 0
+    for f in prog.all_functions():
+        if f.module.short not in ("conducting", "machines", "graphing", "composers.native",
+                                  "specs.native.v1.models", "specs.base"):
+            continue
+        for node in ast.walk(f.node):
+            for fld in ("body", "orelse", "finalbody"):
+                lst = getattr(node, fld, None)
+                if not (isinstance(lst, list) and lst and isinstance(lst[0], ast.stmt)):
+                    continue
+                for i, s in enumerate(lst):
+                    if not (isinstance(s, ast.If) and isinstance(s.test, ast.Compare)
+                            and len(s.test.ops) == 1 and isinstance(
+                                s.test.ops[0], (ast.In, ast.NotIn))
+                            and isinstance(s.test.comparators[0], ast.Name)):
+                        continue
+                    n += 1
+                    elem, cont = unparse(s.test.left), s.test.comparators[0].id
+                    inst = (f.qualname, norm_src(s.test))
+                    bad = None
+                    for prev in reversed(lst[:i]):
+                        if isinstance(prev, ast.Expr) and isinstance(prev.value, ast.Call) and \
+                                isinstance(prev.value.func, ast.Attribute) and isinstance(
+                                prev.value.func.value, ast.Name) and \
+                                prev.value.func.value.id == cont:
+                            if prev.value.func.attr in ("append", "add") and prev.value.args \
+                                    and unparse(prev.value.args[0]) == elem:
+                                bad = prev
+                            break  # any other mutation of the container ends the argument
+                        names = {x.id for x in ast.walk(prev) if isinstance(x, ast.Name)
+                                 and isinstance(x.ctx, ast.Store)}
+                        if cont in names or names & {x.id for x in ast.walk(s.test.left)
+                                                     if isinstance(x, ast.Name)}:
+                            break
+                        if not isinstance(prev, (ast.Expr, ast.Assign, ast.Pass)):
+                            break
+                    if bad is None:
+                        res.holds(inst)
+                    else:
+                        always = "false" if isinstance(s.test.ops[0], ast.NotIn) else "true"
+                        res.violated(inst, Finding(
+                            "G4", f.file, f.qualname,
+                            "membership test after append: " + norm_src(s.test),
+                            "%s was appended to %s on the line before, so this test is always "
+                            "%s: the guarded step (%s) %s - a work-list traversal that stops "
+                            "after the first level" % (
+                                elem, cont, always, norm_src(s.body[0])[:80],
+                                "never runs" if always == "false" else "always runs"),
+                            line=s.lineno))
+    if n < 5:
+        raise AnalysisError("fewer than 5 membership-guarded statements found")
+    return res
